@@ -52,6 +52,10 @@ def jobs(tier, seed):
         add(fmt=fmt, reps=['r0'], nrec=[7], first=[6], step=[2], **pp)
         add(fmt=fmt, reps=['r0'], nrec=[8], first=[9], step=[3], sel=dict(r_start=[2], r_stop=[7]), **pp)
         add(fmt=fmt, reps=['r0', 'r1'], nrec=[8, 7], first=[4, 10], step=[2, 5], sel=dict(r_start=[None, 2], r_stop=[6, None]), **pp)
+    # explicit chain names (names=): assigned in the numeric order of the replica numbers, whatever the listing order
+    for fmt in ('rwms16', 'qtop', 'ms5', 'sfqcd'):
+        pp = dict(p=dict(ncs=1, tmax=2, index_aim=1)) if fmt == 'sfqcd' else {}
+        add(fmt=fmt, reps=['r2', 'r10', 'r1'], nrec=[5, 5, 6], first=[1, 1, 1], step=[1, 1, 1], listing=[2, 0, 1], sel=dict(names=['A|x1', 'A|x2', 'A|x10']), **pp)
     add(fmt='rwms16', reps=['r0'], nrec=[12], first=[1], step=[1], sel=dict(r_start=[2], r_stop=[12], r_step=2))
     add(fmt='rwms20', reps=['r0'], nrec=[11], first=[1], step=[1], sel=dict(r_stop=[11], r_step=2))
     # sfcf text formats: compact, folder and appended layout; every requested correlator kind; shuffled listings; replica numbers r2 / r10
@@ -64,6 +68,7 @@ def jobs(tier, seed):
         J.append(dict(harness='sfcf', params=dict(layout=lay, names=names, req=['F_V0', 0, 0], perm=2, im=True, T=3, **R2)))
         for perm in (0, 5, 11):
             J.append(dict(harness='sfcf', params=dict(layout=lay, names=['f_A', 'f_1'], req=['f_A', 0, None], perm=perm, **R3)))
+        J.append(dict(harness='sfcf', params=dict(layout=lay, names=['f_A', 'f_1'], req=['f_1', 0, 0], perm=3, ens_name='ens', **R2)))      # ensemble name given by the caller
         for keyed in (False, True):
             J.append(dict(harness='sfcf_multi', params=dict(layout=lay, perm=7, keyed=keyed, **R2)))
         if lay != 'a':
